@@ -190,19 +190,30 @@ def run(chk, prog):
     fnn = prog.fn("vfps::PhaseSpace::normalize")
     sn = scans["normalize"]
     st = [a for a in sn.accesses if a.kind == "store" and a.base == "_data"]
-    A.require(len(st) == 2, "normalize: expected a scaling and a zeroing store")
-    sc_, ze = (st[0], st[1]) if st[0].op == "*=" else (st[1], st[0])
-    nS = sc_.loops[0].sym
-    wantf = sp.IndexedBase("_filling_set")[nS] / sp.IndexedBase("_filling")[nS]
-    chk.check(sc_.op == "*=" and sc_.value is not None and sp.simplify(sc_.value - wantf) == 0, "R3", A.loc(fnn, {"line": sc_.line}),
-              "every cell of bunch n is multiplied by filling_set[n]/filling[n] (%s)" % sc_.value, "normalize:factor:%s" % sc_.value)
-    chk.check(ze.op == "=" and ze.value == 0, "R3", A.loc(fnn, {"line": ze.line}), "cells of an empty bucket are set to zero", "normalize:zero")
-    for a in (sc_, ze):
-        full = len(a.loops) == 3 and a.idx == tuple(L.sym for L in a.loops) and all(L.lo == 0 and sp.expand(S.norm(L.hi) - (B if L.name == "n" else N)) == 0 for L in a.loops)
-        chk.check(full, "R3", A.loc(fnn, {"line": a.line}), "the store covers every cell [n][x][y] of the bunch", "normalize:range:%s" % a.op)
-    gpos = [pol for g_, pol in sc_.guards if isinstance(g_, dict) and "_filling_set" in A.show(g_)]
-    gneg = [pol for g_, pol in ze.guards if isinstance(g_, dict) and "_filling_set" in A.show(g_)]
-    chk.check(gpos == [True] and gneg == [False], "R3", fnn.where, "scaling for filling_set[n] > 0, zeroing otherwise (one if/else)", "normalize:branches")
+    A.require(len(st) >= 1, "normalize: no store to the grid")
+    scs = [a for a in st if a.op == "*="]
+    zes = [a for a in st if a.op == "=" and a.value == 0]
+    oth = [a for a in st if a not in scs and a not in zes]
+    chk.check(len(scs) == 1 and not oth, "R3", fnn.where, "normalize rescales the grid by one multiplication per cell (and writes nothing else but zeros): %s" % [str(a)[:60] for a in st],
+              "normalize:stores:%s" % sorted(a.op for a in st))
+    if scs:
+        sc_ = scs[0]
+        nS = sc_.loops[0].sym
+        wantf = sp.IndexedBase("_filling_set")[nS] / sp.IndexedBase("_filling")[nS]
+        chk.check(sc_.value is not None and sp.simplify(sc_.value - wantf) == 0, "R3", A.loc(fnn, {"line": sc_.line}),
+                  "every cell of bunch n is multiplied by filling_set[n]/filling[n] (%s)" % sc_.value, "normalize:factor:%s" % sc_.value)
+        # empty buckets: filling_set[n] == 0 and, once zeroed, filling[n] == 0 as well -- the factor would be 0/0.  The bucket must be set
+        # to zero under the complement of a guard `filling_set[n] > 0` that protects the multiplication.
+        gpos = [pol for g_, pol in sc_.guards if isinstance(g_, dict) and "_filling_set" in A.show(g_)]
+        chk.check(gpos == [True], "R3", A.loc(fnn, {"line": sc_.line}),
+                  "the multiplication runs only for filling_set[n] > 0: an empty bucket (0/0 after it was zeroed once) is never rescaled", "normalize:scaling-unguarded")
+        chk.check(len(zes) == 1, "R3", fnn.where, "cells of an empty bucket are set to zero (%d zeroing stores)" % len(zes), "normalize:zero")
+        for a in [sc_] + zes[:1]:
+            full = len(a.loops) == 3 and a.idx == tuple(L.sym for L in a.loops) and all(L.lo == 0 and sp.expand(S.norm(L.hi) - (B if L.name == "n" else N)) == 0 for L in a.loops)
+            chk.check(full, "R3", A.loc(fnn, {"line": a.line}), "the store covers every cell [n][x][y] of the bunch", "normalize:range:%s" % a.op)
+        if zes:
+            gneg = [pol for g_, pol in zes[0].guards if isinstance(g_, dict) and "_filling_set" in A.show(g_)]
+            chk.check(gpos == [True] and gneg == [False], "R3", fnn.where, "scaling for filling_set[n] > 0, zeroing otherwise (one if/else)", "normalize:branches")
     ian = prog.fn("vfps::PhaseSpace::integrateAndNormalize")
     chk.used(ian)
     gi = Fl.CFG(ian)
